@@ -435,7 +435,7 @@ compile:
 	// While we're running, also update task stats directly into the tasks's status.
 	// TODO(marius): also aggregate stats across all tasks.
 	statsCtx, statsCancel := context.WithCancel(ctx)
-	go monitorTaskStats(statsCtx, m, task)
+	go monitorTaskStats(statsCtx, m, task, task.Status)
 
 	b.sess.tracer.Event(m, task, "B")
 	task.Set(TaskRunning)
@@ -473,11 +473,12 @@ compile:
 
 // monitorTaskStats monitors stats (e.g. records read/written) of the task
 // running on m, updating task's status until ctx is done.
-func monitorTaskStats(ctx context.Context, m *sliceMachine, task *Task) {
-	// Capture the status of this attempt: the evaluator replaces
-	// task.Status (under the task's lock) when it resubmits the task, which
-	// can happen while this goroutine is still finishing its last poll.
-	status := task.Status
+//
+// The status of this attempt is passed in by the caller, which reads it
+// before this goroutine exists: the evaluator replaces task.Status (under
+// the task's lock) when it resubmits the task, which can happen before
+// this goroutine has even started, or while it is finishing its last poll.
+func monitorTaskStats(ctx context.Context, m *sliceMachine, task *Task, status *status.Task) {
 	wait := func() {
 		select {
 		case <-time.After(statsPollInterval):
